@@ -9,6 +9,9 @@
 (*        did: accepted?, fields / selection depth of the produced AST, how   *)
 (*        many token-level mutants the driver evaluated.                      *)
 (*   {"k":"lim", L, F, acc}   ParseWithLimits(L, F) on the current document   *)
+(*   {"k":"lit", blk, src, oblk, out}   one string literal of the current     *)
+(*        document (block?, raw content between the delimiters as code        *)
+(*        points) and the literal at the same place of the printed document   *)
 (*   {"k":"enum", kk, maxlen, count, alphabet}  the bounded enumeration       *)
 (*   {"k":"end"}                                                              *)
 (*                                                                            *)
@@ -21,12 +24,13 @@
 (* so that every unsound observation is reported and classified); in the      *)
 (* strict configuration they are INVARIANTS.                                  *)
 EXTENDS GQLGrammar, Json, TLCExt, IOUtils
+Lit == INSTANCE GQLLiteral        \* character-level model of string literals: the value a literal denotes (Lit!Den)
 TraceLog == ndJsonDeserialize(IOEnv.TRACE)
 VARIABLES l,      \* next line
           obs     \* last observation: [k, L, F, acc, astF, astD]
 tvars == <<gvars, l, obs>>
 Ev == TraceLog[l]
-NoObs == [k |-> "none", L |-> 0, F |-> 0, acc |-> FALSE, astF |-> 0, astD |-> 0]
+NoObs == [k |-> "none", L |-> 0, F |-> 0, acc |-> FALSE, astF |-> 0, astD |-> 0, blk |-> FALSE, src |-> <<>>, oblk |-> FALSE, out |-> <<>>]
 
 TraceInit ==
   /\ l = 1 /\ TLCSet(1, 0)
@@ -43,13 +47,21 @@ T_Doc ==
   /\ Ev.depth = Depth(Ev.toks) /\ Ev.idepth = InlinedDepth(Ev.toks) /\ Ev.fields = FieldCount(Ev.toks)
   /\ Ev.nmut = NMut(Ev.toks) /\ Ev.nmutSeen \in {0, NMut(Ev.toks)}
   /\ nf' = Ev.fields /\ mx' = Ev.depth
-  /\ obs' = [k |-> "doc", L |-> 0, F |-> 0, acc |-> Ev.acc, astF |-> Ev.astF, astD |-> Ev.astD]
+  /\ obs' = [NoObs EXCEPT !.k = "doc", !.acc = Ev.acc, !.astF = Ev.astF, !.astD = Ev.astD]
   /\ Keep
 
 T_Lim ==
   /\ IsLine("lim")
   /\ Len(toks) > 0
-  /\ obs' = [k |-> "lim", L |-> Ev.L, F |-> Ev.F, acc |-> Ev.acc, astF |-> 0, astD |-> 0]
+  /\ obs' = [NoObs EXCEPT !.k = "lim", !.L = Ev.L, !.F = Ev.F, !.acc = Ev.acc]
+  /\ UNCHANGED <<toks, nf, mx>> /\ Keep
+
+\* the literal is one of the current document's string tokens: delimiters + raw content spell the token
+CodeSeq(x) == [i \in 1..Len(x) |-> x[i]]
+T_Lit ==
+  /\ IsLine("lit")
+  /\ Ev.tok \in 1..Len(toks) /\ Ev.len = Len(toks[Ev.tok].s)
+  /\ obs' = [NoObs EXCEPT !.k = "lit", !.blk = Ev.blk, !.src = CodeSeq(Ev.src), !.oblk = Ev.oblk, !.out = CodeSeq(Ev.out)]
   /\ UNCHANGED <<toks, nf, mx>> /\ Keep
 
 T_Enum ==
@@ -61,7 +73,7 @@ T_Enum ==
 
 T_End == IsLine("end") /\ obs' = NoObs /\ UNCHANGED <<toks, nf, mx>> /\ Keep
 
-TraceNext == T_Doc \/ T_Lim \/ T_Enum \/ T_End
+TraceNext == T_Doc \/ T_Lim \/ T_Lit \/ T_Enum \/ T_End
 TraceSpec == TraceInit /\ [][TraceNext]_tvars
 
 \* ---------------------------------------------------------------- the judged properties
@@ -72,7 +84,15 @@ LimitsSoundSyntactic == obs.k = "lim" => (ExceedsSyntactic(toks, obs.L, obs.F) =
 \* an accepted document is the document that was written: as many fields, as deep
 ParseAgrees == (obs.k = "doc" /\ obs.acc) => (obs.astF = FieldCount(toks) /\ obs.astD = Depth(toks))
 
+\* printing preserves what every string literal and description denotes (block strings: BlockStringValue of the raw
+\* content with \""" unescaped; ordinary strings: the escape sequences resolved), whatever spelling the printer chooses
+DenLit(blk, r) == Lit!Den(Lit!Leaf(IF blk THEN "bstr" ELSE "str", r), "String", <<>>, FALSE)
+PrintPreservesValue == obs.k = "lit" => Lit!VEq(DenLit(obs.blk, obs.src), DenLit(obs.oblk, obs.out))
+
 Judge ==
+  /\ IF ~PrintPreservesValue
+     THEN PrintT(ToJson([k |-> "valuediff", line |-> l - 1]))
+     ELSE TRUE
   /\ IF ~LimitsSound
      THEN PrintT(ToJson([k |-> "unsound", line |-> l - 1, L |-> obs.L, F |-> obs.F, depth |-> Depth(toks), idepth |-> InlinedDepth(toks),
                          fields |-> FieldCount(toks), syntactic |-> ~LimitsSoundSyntactic]))
